@@ -14,6 +14,7 @@ pub mod history;
 pub mod libtypes;
 pub mod merge;
 pub mod paths;
+pub mod present;
 pub mod sem;
 
 pub fn dispatch(args: &Args, reg: &[TypeEntry], log: &mut Log) {
@@ -27,6 +28,7 @@ pub fn dispatch(args: &Args, reg: &[TypeEntry], log: &mut Log) {
         "C08" => paths::c08(args, log),
         "C12" => libtypes::c12(args, log),
         "C13" => determinism::c13(args, reg, log),
+        "C14" => present::c14(args, reg, log),
         "C17" => history::c17(args, reg, log),
         "exports" => exports::exports(args, reg, log),
         "declinfo" => docs::declinfo(args, reg, log),
